@@ -18,6 +18,7 @@ pub mod c12;
 pub mod c13;
 pub mod c14;
 pub mod c15;
+pub mod c18;
 pub mod decide;
 pub mod faultsim;
 pub mod c16;
@@ -38,6 +39,7 @@ pub fn run(ctx: &Ctx) -> Option<&'static str> {
         "C12" => Some(c12::run(ctx)),
         "C05" => Some(c05::run(ctx)),
         "C06" => Some(c06::run(ctx)),
+        "C18" => Some(c18::run(ctx)),
         "C17" => Some(c17::run(ctx)),
         "C16" => Some(c16::run(ctx)),
         "C13" => Some(c13::run(ctx)),
